@@ -1,6 +1,7 @@
 import A2Verif.Model.Hex
 import A2Verif.Drv.Fs
 import A2Verif.Drv.FsPascal
+import A2Verif.Drv.FsDos
 import A2Verif.Drv.C01
 import A2Verif.Drv.C02
 import A2Verif.Drv.C03
@@ -31,15 +32,18 @@ structure State where
   fs : Fs.St := {}
   /-- concrete Pascal model (family `fsp`); compares its image with the mirror kept by family `fs` -/
   fsp : FsPascal.St := {}
+  /-- concrete DOS 3.x model (family `fsd`); compares its flushed image with the mirror kept by family `fs` -/
+  fsd : FsDos.St := {}
 
 def State.init : State := {}
 
 def dispatch (st : State) (toks : List String) : State × String :=
   match toks with
   | "ping" :: _ => (st, "pong")
-  | "fs" :: "open" :: rest => let (f, a) := Fs.handle st.fs ("open" :: rest); ({ fs := f, fsp := {} }, a)
+  | "fs" :: "open" :: rest => let (f, a) := Fs.handle st.fs ("open" :: rest); ({ fs := f, fsp := {}, fsd := {} }, a)
   | "fs" :: rest => let (f, a) := Fs.handle st.fs rest; ({ st with fs := f }, a)
   | "fsp" :: rest => let (f, a) := FsPascal.handle st.fs.raw st.fsp rest; ({ st with fsp := f }, a)
+  | "fsd" :: rest => let (f, a) := FsDos.handle st.fs.raw st.fsd rest; ({ st with fsd := f }, a)
   | "c01" :: rest => (st, C01.handle rest)
   | "c02" :: rest => (st, C02.handle rest)
   | "c03" :: rest => (st, C03.handle rest)
